@@ -54,6 +54,8 @@ class CondensedReactionGraph(MolGraph):
     def __eq__(self, other: object) -> bool:
         if not isinstance(other, self.__class__):
             return NotImplemented
+        if len(self) == 0 or len(other) == 0:
+            return len(self) == len(other)
 
         o_labels = label_hash(other, atom_labels=("atom_type", "reaction"))
         s_labels = label_hash(self, atom_labels=("atom_type", "reaction"))
